@@ -27,6 +27,7 @@ ASSUMPTIONS = ["V*(b) is bracketed by an exact expectimax of depth 3 (4 in thoro
 
 
 def run_case(case, rng):
+    from msdm.core.distributions import DictDistribution
     from msdm.algorithms import pointbasedvalueiteration as pbvi_mod
     from msdm.algorithms.pointbasedvalueiteration import PointBasedValueIteration
     from msdm.algorithms.qmdp import QMDP
@@ -150,8 +151,15 @@ def run_case(case, rng):
         case.count("beliefs_bracketed")
         if not (L <= U + tol):
             raise Inconclusive("reference bracket inverted")
-        bel = Belief(tuple(S), tuple(float(x) for x in b))
-        pv = case.call("pbvi.policy.value", res.policy.value, bel, facts=facts)
+        # the belief is handed over in every form the policy classes accept: the Belief tuple, a plain list / tuple of
+        # probabilities in state_list order, a numpy vector, a distribution over states
+        bel_rep = rng.choice(["Belief", "Belief", "list", "tuple", "array", "array", "distribution"])
+        bel = Belief(tuple(S), tuple(float(x) for x in b))       # (the QMDP policy class takes Belief tuples only)
+        bel_p = {"Belief": lambda: bel, "list": lambda: [float(x) for x in b],
+                 "tuple": lambda: tuple(float(x) for x in b), "array": lambda: np.array(b, dtype=float),
+                 "distribution": lambda: DictDistribution({s_: float(x) for s_, x in zip(S, b) if x > 0})}[bel_rep]()
+        case.count(f"belief_given_as:{bel_rep}")
+        pv = case.call("pbvi.policy.value", res.policy.value, bel_p, facts=facts)
         if pv is not case.FAIL:
             case.check(float(pv) <= U + slack + tol, "pbvi-value-exceeds-optimal-upper-bracket+slack",
                        lambda: f"b={b.tolist()} PBVI={float(pv)!r} U={U!r} slack={slack!r} (k={k})", **facts)
@@ -205,11 +213,12 @@ def run_case(case, rng):
                         (fee_policy if fee_policy is not case.FAIL else None, "subclass-overriding-action_value")):
             if pol is None:
                 continue
-            d = case.call(f"{nm}.policy.action_dist", pol.action_dist, bel, facts=facts)
+            bel_q = bel_p if nm in ("pbvi", "subclass-overriding-action_value") else bel
+            d = case.call(f"{nm}.policy.action_dist", pol.action_dist, bel_q, facts=facts)
             case.count("action_dists_checked")
             if d is case.FAIL:
                 continue
-            av = {a: pol.action_value(bel, a) for a in A}
+            av = {a: pol.action_value(bel_q, a) for a in A}
             if nm == "pbvi":
                 # downstream use of the returned policy: its action values are the one-step look-ahead over ITS OWN value function
                 # (expected immediate reward of the whole belief + discounted value of the Bayes successors under the model's dynamics)
@@ -217,7 +226,7 @@ def run_case(case, rng):
                 for ai_, a_ in enumerate(A):
                     la = float(bv @ M.arr.ER[:, ai_])
                     for v_, m_ in _succ_unmasked(M, sp, bv, ai_):
-                        la += gamma * m_ * float(pol.value((v_ / m_).tolist()))      # (a list: AlphaVectorPolicy raises TypeError for numpy-array beliefs, see DESIGN 8.7)
+                        la += gamma * m_ * float(pol.value(v_ / m_))
                     case.count("lookahead_action_values_checked")
                     case.check(abs(float(av[a_]) - la) <= 1e-9 * max(1.0, abs(la)), "pbvi:action_value!=one-step-lookahead-over-own-value",
                                lambda: f"b={bv.tolist()} a={a_!r}: {av[a_]!r} vs {la!r}", **facts)
